@@ -14,5 +14,5 @@ import (
 )
 
 func main() {
-	minigen.Main("c02", minigen.C02Scenario, nil, nil)
+	minigen.Main("c02", minigen.C02Scenario, nil, minigen.C02Fixed)
 }
